@@ -77,6 +77,9 @@ def make_backend(cfg: dict):
     return type(key, (TextQueryBackend,), attrs)
 
 
+QX_EXPR = "[qx {field} {id}]"
+
+
 class Tokenize(Exception):
     pass
 
@@ -140,6 +143,9 @@ def parse_atom(body: str):
             return _field(ch), j
         m2 = re.compile(r"[^ \]]+").match(body, i)      # raw field (native CIDR template passes it unquoted)
         return cps(m2.group(0)), m2.end()
+    if base == "qx":
+        f, j = field_at(i)
+        return [{"atom": {"k": "qx", "f": f, "expr": cps(QX_EXPR), "id": cps(body[j:].strip())}}]
     if base in ("kw", "kwn", "kwre"):
         if base == "kw":
             ch, j = _read_quoted(body, i, '"')
